@@ -21,6 +21,15 @@ CREATE OR REPLACE MACRO vtl_period_limit(indicator VARCHAR) AS (
     END
 );
 
+-- Calendar-aware period limit: a year has 52 or 53 ISO weeks and 365 or 366 days
+CREATE OR REPLACE MACRO vtl_period_limit_year(indicator VARCHAR, yr INTEGER) AS (
+    CASE indicator
+        WHEN 'W' THEN CAST(WEEKOFYEAR(MAKE_DATE(yr, 12, 28)) AS INTEGER)
+        WHEN 'D' THEN CAST(DAYOFYEAR(MAKE_DATE(yr, 12, 31)) AS INTEGER)
+        ELSE vtl_period_limit(indicator)
+    END
+);
+
 -- TimePeriod → end DATE
 CREATE OR REPLACE MACRO vtl_tp_end_date(p vtl_time_period) AS (
     CASE p.period_indicator
@@ -296,6 +305,20 @@ CREATE OR REPLACE MACRO vtl_tp_shift(p vtl_time_period, n INTEGER) AS (
         WHEN 'A' THEN
             vtl_period_to_string({'year': p.year + n,
                 'period_indicator': 'A', 'period_number': 1}::vtl_time_period)
+        -- Weeks and days are shifted on the calendar: years have 52/53 weeks and 365/366 days
+        WHEN 'W' THEN
+            vtl_period_to_string({
+                'year': CAST(ISOYEAR(vtl_tp_end_date(p) + INTERVAL (n * 7) DAY) AS INTEGER),
+                'period_indicator': 'W',
+                'period_number':
+                    CAST(WEEKOFYEAR(vtl_tp_end_date(p) + INTERVAL (n * 7) DAY) AS INTEGER)
+            }::vtl_time_period)
+        WHEN 'D' THEN
+            vtl_period_to_string({
+                'year': CAST(YEAR(vtl_tp_end_date(p) + INTERVAL (n) DAY) AS INTEGER),
+                'period_indicator': 'D',
+                'period_number': CAST(DAYOFYEAR(vtl_tp_end_date(p) + INTERVAL (n) DAY) AS INTEGER)
+            }::vtl_time_period)
         ELSE
             vtl_period_to_string({
                 'year': p.year + CASE
